@@ -644,7 +644,8 @@ def chrono_limit_docs(prefix="cl"):
     # separators: never a panic, never ready
     for to in ("2024/", "2024/02", "abcd/", "2024/0\u3042", "2024/02/15 12:00:00", "2024/02-15 12:00:00", "2000-01", "2000", "", "\u3042", "2000-01-01T00:00:00",
                "20000101", "2000-", "2000-01-", "2000-01-01 ", "2000-01-01 00", "2000-01-01 00:00", "2000-01-01 00:00:", "\u3042\u3042\u3042\u3042-01-01 00:00:00",
-               "2000\u301c01\u301c01 00:00:00", "2000.01.01 00:00:00", "-", "/", "    /", "2024\\", "2024:02:15 12:00:00"):
+               "2000\u301c01\u301c01 00:00:00", "2000.01.01 00:00:00", "-", "/", "    /", "2024\\", "2024:02:15 12:00:00",
+               "2000-01-01 00:00:00.5", "2000-01-01 00:00:00.000", "2000-01-01 00:00:00,5", "2000-01-01 00:00:00 AM", "2000-01-01 00:00:00Z"):
         for ds, de in (("<", ">"), ("<!-- <", "> -->")):
             src = f'a\n{ds}tl to="{to}"{de}\nbody\n{ds}/tl{de}\nb\n'
             cid = f"{prefix}{k}"
@@ -666,7 +667,8 @@ def weird_tag_cases(rng, n, prefix="wtag"):
              "to", "to=2000-01-01", 'to="2000-01-01 00:00:00"', "to='2000-01-01 00:00:00'", 'c="it\'s"', "c='say \"hi\"'", 'c="a\\"', "c='\\'",
              'c="x', "c='y", '"', "'", "=", "==", 'a="1"b="2"', "é='ü'", "\x01", "\x7f", 'c="\t"', "/", "//", 'to ="2000-01-01 00:00:00"',
              'to= "2000-01-01 00:00:00"', 'name = "x"', 'name name="x"', 'to to="2000-01-01 00:00:00"', 'to="2024/"', 'to="2024/02"', 'name="x""', "name='x'=",
-             'c="1" "', 'to="2000-01-01 00:00:00""']
+             'c="1" "', 'to="2000-01-01 00:00:00""', 'to=\n"2000-01-01 00:00:00"', 'name=\n"x"', 'to=\n  "2000-01-01 00:00:00"', 'to\n="2000-01-01 00:00:00"',
+             'to="2000-01-01 00:00:00.5"']
     names = ["tl", "rm", "tl", "rm", "TL", "tl\r", "/tl", "//tl", "tl/", "t l", "期限", "tl\u00a0", "", "t\tl"]
     for i in range(n):
         ds, de = rng.choice(G.DELIMS[:10])
@@ -757,8 +759,26 @@ def wrapper_tag_cases(rng, n, prefix="wt"):
         o2, c2 = kinds[k2]
         lines = [rng.choice(["", "a", "fn main() {"])]
         lines.append(ind + tag(rng.choice([f"tl {e} unwrap-block", 'rm name="x" unwrap-block'])))
-        shape = rng.randrange(10)
+        shape = rng.randrange(12)
         u_close = None
+        if shape in (10, 11):
+            # one element from the opening wrapper line to some line k, another from later on line k to the closing
+            # wrapper line: when both are ready the two seams of the unwrapped element end up on one line
+            lines.append(ind + rng.choice(["if (c) { ", ""]) + tag(o1))
+            for _ in range(rng.randint(0, 1)):
+                lines.append(ind + "  legacy();")
+            lines.append(ind + tag(c1) + rng.choice([" y ", "y", " ", "  keep();  "]) + tag(o2))
+            for _ in range(rng.randint(0, 1)):
+                lines.append(ind + "  more();")
+            lines.append(ind + tag(c2) + rng.choice([" }", ""]))
+            closer = "/tl" if "tl " in lines[1] else "/rm"
+            lines.append(ind + tag(closer))
+            lines.append(rng.choice(["", "b", "}"]))
+            src = "\n".join(lines) + rng.choice(["", "\n"])
+            cid = f"{prefix}{i}"
+            cases.append(G.dcase(cid, ds, de, src, G.Cfg(targets=("x",))))
+            meta[cid] = {"stream": "wrapper-tags", "strict": False}
+            continue
         # opening wrapper line
         if shape in (0, 1, 4):
             lines.append(ind + "if (c) { " + tag(o1))
@@ -874,6 +894,12 @@ def gen_front(rng, tier, pairs=None, exh_len=None):
     k = 0
     for ds, de in pairs:
         atoms = list(dict.fromkeys(list(ds) + list(de))) + ["x"]
+        if len(atoms) <= 4:
+            # room for two more: a back slash (an "escape" in front of a delimiter) and, for delimiters with letters,
+            # the same letter in the other case; otherwise a character whose lower-case form has another length
+            atoms.append("\\")
+            letters = [c for c in ds + de if c.isalpha()]
+            atoms.append(letters[0].swapcase() if letters else "\u0130")
         atoms = atoms[:6]
         for s in G.exhaustive_strings(atoms, 6 if tier == "quick" else 8):
             if tier == "quick" and rng.random() < 0.7 and len(s) > 4:
@@ -886,7 +912,7 @@ def gen_front(rng, tier, pairs=None, exh_len=None):
     bc, bm = [], {}
     for i in range(600 if tier == "quick" else 8000):
         ds, de = rng.choice(pairs)
-        pool = G.BOUNDARY_CHARS + [ds, de, ds, de, " ", "\n", "r", "/r", "a=\"", "'", "skip"]
+        pool = G.BOUNDARY_CHARS + [ds, de, ds, de, " ", "\n", "r", "/r", "a=\"", "'", "skip", "\\", ds.upper(), de.upper(), ds.lower(), "\n\n"]
         s = "".join(rng.choice(pool) for _ in range(rng.randint(1, 14)))
         bc.append(G.dcase(f"u{i}", ds, de, s, G.Cfg()))
         bm[f"u{i}"] = {"stream": "unicode-boundaries", "mutated": True}
@@ -941,9 +967,9 @@ def gen_docs(rng, tier, n_quick=2500, n_thorough=40000, **kw):
                  nameless_marker_cases("nmg"))
 
 
-TAG_VALUES = ["", "v", "a b", "x=y", "it's", 'say "hi"', "skip", "unwrap-block", "a\nb", "<", "/* <", "to", "あ", "  ", "name=x skip",
+TAG_VALUES = ["first paragraph\n\nsecond paragraph", "\n\n", "", "v", "a b", "x=y", "it's", 'say "hi"', "skip", "unwrap-block", "a\nb", "<", "/* <", "to", "あ", "  ", "name=x skip",
               "C:\\docs\\", "\\", "a\\", "期限切れ", "🧹", "éé", "\\\\"]
-TAG_SEPS = [" ", "  ", "\n", "\n  ", " \n * "]
+TAG_SEPS = [" ", "  ", "\n", "\n  ", " \n * ", "\n\n", " \n\n  "]
 
 
 def gen_c09(rng, tier):
@@ -1026,7 +1052,7 @@ def gen_c09(rng, tier):
 def gen_c10(rng, tier):
     cases, meta = [], {}
     atoms = ["<a>", "<b>", "</a>", "</b>", "</z>", "t", "<//a>", "<a k='v'>", "<a\r\n>", "</a\r\n>", "<a\r\n k='v'>", "<b\r>", "</b\r>",
-             "<A>", "</A>", "</B>", "</a k='v'>", "<>", "< >"]
+             "<A>", "</A>", "</B>", "</a k='v'>", "<>", "< >", "</ a>", "</\na>", "</ b>", "< / a>", "</>", "</ >"]
     L = 5 if tier == "quick" else 7
     import itertools
     k = 0
@@ -1084,7 +1110,9 @@ def gen_c05(rng, tier):
     bad_to = [None, True, "", "2000/01/01 00:00:00", "2000.01.01 00:00:00", "2000-01-01T00:00:00", "2000-01-01", "2000-01-01 00:00",
               "2000-00-01 00:00:00", "2000-13-01 00:00:00", "2000-01-00 00:00:00", "2000-01-32 00:00:00", "2001-02-29 00:00:00",
               "2100-02-29 00:00:00", "2000-04-31 00:00:00", "2000-01-01 24:00:00", "2000-01-01 00:60:00", "2000-01-01 00:00:61",
-              "2000-01-01 00:00:00Z", "2000-01-01 00:00:00 UTC", "2000-01-01 00:00:00 +00:00", "2000-01-01 00:00:00+0900", "abc", "2000-1", "20000101000000"]
+              "2000-01-01 00:00:00Z", "2000-01-01 00:00:00 UTC", "2000-01-01 00:00:00 +00:00", "2000-01-01 00:00:00+0900", "abc", "2000-1", "20000101000000",
+              "2000-01-01 00:00:00.5", "2000-01-01 00:00:00.000", "2000-01-01 00:00:00,5", "2000-01-01 00:00:00.", "2000-01-01 00:00:00.123456789",
+              "2000-01-01 00:00:00 AM", "2000-01-01 00:00:00 .5", "2000-01-01 00:00:00:00", "2000-01-01 00:00:00-", "2000-01-01 00:00:00 0"]
     for to in bad_to:
         for off in ("+00:00", "+0900"):
             for now in (G.NOW, 4102444800 * 2):
@@ -1167,6 +1195,13 @@ def gen_c05(rng, tier):
         cid = f"p{i}"
         cases.append(G.dcase(cid, "<", ">", src, G.Cfg(offset="+00:00", now=G.NOW)))
         meta[cid] = {"stream": "probe", "expect": "ab" if want else src, "why": "probe"}
+    # white space between `=` and the opening quote: a blank is skipped, a line break starts an (unquoted, discarded)
+    # value, so `to` has no value and the element is never ready
+    for j, (sp, ready) in enumerate([("\n", False), ("\n  ", False), (" ", True), ("  ", True), (" \n", False), ("\t", False)]):
+        src = f'a<tl to={sp}"2001-09-09 01:46:39">x</tl>b'
+        cid = f"pq{j}"
+        cases.append(G.dcase(cid, "<", ">", src, G.Cfg(offset="+00:00", now=G.NOW)))
+        meta[cid] = {"stream": "probe", "expect": "ab" if ready else src, "why": f"white space {sp!r} between = and the quote"}
     # two attributes named `to`: the first one decides, also when it has no value
     for j, (attrs, ready) in enumerate([('to to="2001-09-09 01:46:39"', False), ('to=2099-12-31 to="2001-09-09 01:46:39"', False),
                                         ('to="2100-01-01 00:00:00" to="2001-09-09 01:46:39"', False),
@@ -1278,6 +1313,13 @@ def gen_c06(rng, tier):
             k += 1
             cases.append(G.dcase(cid, "<", ">", src, cfg))
             meta[cid] = {"stream": "probe", "expect": "ab" if rdy else src, "why": f"identical tag names, {attrs} targets={targets}"}
+    # configured tag names are taken as they stand: a name with white space at its ends matches no element
+    for tlc, rmc in ((" tl", "rm "), ("tl ", " rm"), ("tl\n", "\trm"), ("t l", "r m"), ("TL", "RM")):
+        src = 'a<tl ' + G.EXPIRED + '>x</tl>b<rm name="x">y</rm>c'
+        cid = f"s{k}"
+        k += 1
+        cases.append(G.dcase(cid, "<", ">", src, G.Cfg(tlc, rmc, "+00:00", G.NOW, ("x",))))
+        meta[cid] = {"stream": "probe", "expect": src, "why": f"configured tag names {tlc!r} / {rmc!r}"}
     # `skip` / `unwrap-block` in another letter case are unknown attributes
     cfg0 = G.Cfg("tl", "rm", "+00:00", G.NOW, ("x",))
     for attrs, exp_inner in ((["SKIP"], None), (["Skip"], None), (["sKIP=''"], None), (["skip"], "KEEP"), (["Unwrap-Block"], None), (["UNWRAP-BLOCK"], None)):
